@@ -445,6 +445,39 @@ theorem add_spec [Inhabited α] (g : Nat → Nat) {o : Options α} (hwf : WF o) 
           have h5 : ¬ (j - 1 < o.len) := by omega
           simp only [c1, c2, c3, h4, h5, if_false]
 
+/-- `Add` on a slice with spare capacity works in place: the backing array keeps its length and nothing above the old
+length is touched (what makes `ResetOptionsTo` safe when its input is a slice of the receiver's own array). -/
+theorem add_frame [Inhabited α] (g : Nat → Nat) {o o' : Options α} (hwf : WF o) (hs : Sorted o.toList) (x : Opt α)
+    (hcap : o.len < o.arr.length) (h : o.add g x = .ok o') :
+    o'.arr.length = o.arr.length ∧ ∀ j, o.len < j → o'.arr[j]? = o.arr[j]? := by
+  have hlen : le x.1 o.toList ≤ o.len := by have := le_le_length x.1 o.toList; rwa [toList_length hwf] at this
+  generalize hb : le x.1 o.toList = b at hlen
+  have hg1 : o.growOne g = .ok ⟨o.arr, o.len + 1⟩ := by
+    unfold Options.growOne Options.reslice
+    have c : ¬ (o.len = o.arr.length) := by omega
+    have c2 : o.len + 1 ≤ o.arr.length := by omega
+    simp [c, c2]
+  obtain ⟨arr2, hr2, hlen2, hspec2⟩ := shiftRight_spec (o.len + 1) (o.len - b) o.len o.arr 0 (by omega) (by omega) (by omega)
+  have hadd : o.add g x = .ok ⟨arr2.set b x, o.len + 1⟩ := by
+    unfold Options.add
+    rw [findPosition_spec hwf hs, hb]
+    simp only [bind, Except.bind, posOf, hg1]
+    rw [postOf_fix hlen]
+    have e1 : (((o.len + 1 : Nat) : Int) - 1 - (b : Int)).toNat = o.len - b := by omega
+    have e2 : ((o.len + 1 : Nat) : Int) - 1 = (o.len : Int) := by omega
+    rw [e1, e2, hr2]
+    simp only []
+    rw [setAtI_nat, setAt_arr x (by omega) (by omega)]
+  rw [hadd] at h
+  injection h with h
+  subst h
+  refine ⟨by simp only [List.length_set]; exact hlen2, ?_⟩
+  intro j hj
+  simp only [List.getElem?_set, hspec2]
+  have h1 : ¬ (b = j) := by omega
+  have h2 : ¬ (o.len - (o.len - b) < j ∧ j ≤ o.len) := by omega
+  simp only [h1, h2, if_false]
+
 theorem remove_spec {o : Options α} (hwf : WF o) (hs : Sorted o.toList) (id : Nat) :
     ∃ o', o.remove id = .ok o' ∧ WF o' ∧ o'.arr.length = o.arr.length ∧
       o'.len = o.len - (le id o.toList - lt id o.toList) ∧
